@@ -21,10 +21,10 @@ wrap after 2^32 - 1 messages is not modelled).  Panics of the modelled code are 
 -/
 namespace OpcuaVerif.SubM
 
-/-- Variants of the source the model can follow.  `current` is the repository copy of this slice.
-`keepOnNone = false` reproduces the pinned source of the C21 defect.  The other flags are the fixes
-made in parallel by the owner of C22/C26/C27 (state #15, expired-with-notification, priority order);
-they are `false` in this repository copy and are to be flipped when those fixes are merged. -/
+/-- Variants of the source the model can follow.  `SubMDrv.current` (all flags on) is the integrated
+repository.  `keepOnNone = false` reproduces the source before the C21 fix; `fix15`,
+`expiredDiscards`, `prioDesc` are the fixes of the C22/C26/C27 slice (state #15, expired-with-notification,
+priority order), `false` = the source before them (counterexample theorems only). -/
 structure Cfg where
   keepOnNone : Bool        -- handle_state_result(None): keep the collected notification (publishing enabled)
   fix15 : Bool             -- state #15 tests `!notifications_available` and resets the lifetime counter
